@@ -217,6 +217,10 @@ func checkC11(c *hx.Checker) {
 	}
 	jobs = append(jobs, newJob("Cast", nil, []*ref.T{ref.FromF(ref.F32, []int{1}, 1)}, nil, ref.Invalid("no to"), hx.DError, hx.Bits, "op", nil, "to-absent"),
 		newJob("Cast", []hx.Attr{hx.AInt("too", 1)}, []*ref.T{ref.FromF(ref.F32, []int{1}, 1)}, nil, ref.Invalid("bad attr"), hx.DError, hx.Bits, "op", nil, "wrong-attr"))
+	// an attribute the operator does not know next to `to`, before and after it: refused whatever the order
+	for _, order := range [][]hx.Attr{{hx.AInt("to", 1), hx.AInt("saturate", 1)}, {hx.AInt("saturate", 1), hx.AInt("to", 1)}, {hx.AInt("to", 1), hx.AInt("too", 7)}, {hx.AInt("to", 1), hx.AInt("to", 7)}, {hx.AInt("to", 7), hx.AInt("to", 1)}} {
+		jobs = append(jobs, newJob("Cast", order, []*ref.T{ref.FromF(ref.F32, []int{2}, 1, 2)}, nil, ref.Invalid("attribute list"), hx.DError, hx.Bits, "op", nil, fmt.Sprintf("extra-attribute %s,%s", order[0].Name, order[1].Name), "extra-attribute"))
+	}
 	runOpJobs(c, jobs)
 	runReuseJobs(c, jobs)
 }
